@@ -154,11 +154,11 @@ theorem not_protected_iff (e : Engine) (pod : Pod) (hrep : pod.isRepresentative 
 gets `(false, [])`; a protected one gets `true`, or no entry at all when nothing is exposed -/
 theorem reported_flag (x : XEngine) (hv : NpValid x.eng) (hreps : ∀ krp ∈ x.reps, RepWF krp.2)
     (n : String) (pod : Pod) (hpod : pod.isRepresentative = false ∧ pod.ValidPorts)
-    (hname : pod.name ≠ representativePodName) (i : Bool) (res : Option (Bool × List XEntry))
+    (i : Bool) (res : Option (Bool × List XEntry))
     (h : xgressExposure x (.wl n pod) i = .ok res) :
     (res.getD (true, [])).1 = isProtected x.eng pod i ∧
     (isProtected x.eng pod i = false → res = some (false, [])) := by
-  obtain ⟨ns, _, h1 | h1⟩ := xgressExposure_spec x hv hreps n pod hpod hname i res h
+  obtain ⟨ns, _, h1 | h1⟩ := xgressExposure_spec x hv hreps n pod hpod i res h
   · obtain ⟨hp, rfl⟩ := h1
     exact ⟨hp.symm, fun _ => rfl⟩
   · obtain ⟨hp, cw, perRep, _, _, rfl⟩ := h1
@@ -171,16 +171,16 @@ theorem reported_flag (x : XEngine) (hv : NpValid x.eng) (hreps : ∀ krp ∈ x.
 theorem report_flags (x : XEngine) (hv : NpValid x.eng) (hreps : ∀ krp ∈ x.reps, RepWF krp.2)
     (peers : List LPeer)
     (hp : ∀ n pod, LPeer.wl n pod ∈ peers →
-      (pod.isRepresentative = false ∧ pod.ValidPorts) ∧ pod.name ≠ representativePodName)
+      pod.isRepresentative = false ∧ pod.ValidPorts)
     (focus : String) (xs : List XPeer) (h : exposedPeers x peers focus = .ok xs) :
     ∀ xp ∈ xs, ∃ n pod, LPeer.wl n pod ∈ peers ∧ isFocus focus (.wl n pod) = true ∧ xp.name = n ∧
       xp.ingProtected = isProtected x.eng pod true ∧
       xp.egProtected = isProtected x.eng pod false := by
   intro xp hxp
   obtain ⟨n, pod, ri, rg, hw, hf, hi, hg, rfl⟩ := exposedPeers_mem h hxp
-  obtain ⟨hpod, hname⟩ := hp n pod hw
-  exact ⟨n, pod, hw, hf, rfl, (reported_flag x hv hreps n pod hpod hname true ri hi).1,
-    (reported_flag x hv hreps n pod hpod hname false rg hg).1⟩
+  have hpod := hp n pod hw
+  exact ⟨n, pod, hw, hf, rfl, (reported_flag x hv hreps n pod hpod true ri hi).1,
+    (reported_flag x hv hreps n pod hpod false rg hg).1⟩
 
 /-! ### 3. and 4. every reported entry is realizable -/
 
@@ -223,11 +223,11 @@ theorem entire_cluster_sound (e : Engine) (ha : e.anps = []) (hb : e.banp = none
 theorem exposure_entries_realizable (x : XEngine) (ha : x.eng.anps = []) (hb : x.eng.banp = none)
     (hv : NpValid x.eng) (hreps : ∀ krp ∈ x.reps, RepWF krp.2) (n : String) (pod : Pod)
     (hpod : pod.isRepresentative = false ∧ pod.ValidPorts)
-    (hname : pod.name ≠ representativePodName) (i : Bool) (prot : Bool) (entries : List XEntry)
+    (i : Bool) (prot : Bool) (entries : List XEntry)
     (h : xgressExposure x (.wl n pod) i = .ok (some (prot, entries))) :
     ∃ ns, x.eng.findNs pod.ns = some ns ∧
       ∀ en ∈ entries, Realizable x.eng pod ns.labels i en := by
-  obtain ⟨ns, hns, h1 | h1⟩ := xgressExposure_spec x hv hreps n pod hpod hname i _ h
+  obtain ⟨ns, hns, h1 | h1⟩ := xgressExposure_spec x hv hreps n pod hpod i _ h
   · obtain ⟨_, heq⟩ := h1
     cases heq
     exact ⟨ns, hns, fun en hen => by cases hen⟩
@@ -264,7 +264,7 @@ sets), and so are the hypotheses on the shape of the engine. -/
 theorem exposure_entries_realizable_build (objs : List Obj) (x : XEngine)
     (hbuild : Exposure.build objs = .ok x) (hv : NpValid x.eng) (hok : SelectorsOK x.eng)
     (n : String) (pod : Pod) (hpod : pod.isRepresentative = false ∧ pod.ValidPorts)
-    (hname : pod.name ≠ representativePodName) (i : Bool) (prot : Bool) (entries : List XEntry)
+    (i : Bool) (prot : Bool) (entries : List XEntry)
     (h : xgressExposure x (.wl n pod) i = .ok (some (prot, entries))) :
     ∃ ns, x.eng.findNs pod.ns = some ns ∧
       ∀ en ∈ entries, ∀ (q : Pod) (nsl : Labels),
@@ -273,7 +273,7 @@ theorem exposure_entries_realizable_build (objs : List Obj) (x : XEngine)
           Spec.allowedDir x.eng.toView (.pod pod ns.labels) (.pod q nsl)
             (dstEnd i pod ns.labels q nsl) (dirOf i) pr p = true := by
   obtain ⟨ha, hb, hreps, _⟩ := build_provides hbuild
-  obtain ⟨ns, hns, h1 | h1⟩ := xgressExposure_spec x hv hreps n pod hpod hname i _ h
+  obtain ⟨ns, hns, h1 | h1⟩ := xgressExposure_spec x hv hreps n pod hpod i _ h
   · obtain ⟨_, heq⟩ := h1
     cases heq
     exact ⟨ns, hns, fun en hen => by cases hen⟩
@@ -304,21 +304,21 @@ theorem exposure_entries_realizable_build (objs : List Obj) (x : XEngine)
 theorem exposed_peers_realizable (x : XEngine) (ha : x.eng.anps = []) (hb : x.eng.banp = none)
     (hv : NpValid x.eng) (hreps : ∀ krp ∈ x.reps, RepWF krp.2) (peers : List LPeer)
     (hp : ∀ n pod, LPeer.wl n pod ∈ peers →
-      (pod.isRepresentative = false ∧ pod.ValidPorts) ∧ pod.name ≠ representativePodName)
+      pod.isRepresentative = false ∧ pod.ValidPorts)
     (focus : String) (xs : List XPeer) (h : exposedPeers x peers focus = .ok xs) :
     ∀ xp ∈ xs, ∃ pod ns, LPeer.wl xp.name pod ∈ peers ∧ x.eng.findNs pod.ns = some ns ∧
       (∀ en ∈ xp.ing, Realizable x.eng pod ns.labels true en) ∧
       (∀ en ∈ xp.eg, Realizable x.eng pod ns.labels false en) := by
   intro xp hxp
   obtain ⟨n, pod, ri, rg, hw, _, hi, hg, rfl⟩ := exposedPeers_mem h hxp
-  obtain ⟨hpod, hname⟩ := hp n pod hw
-  obtain ⟨ns, hns, _⟩ := xgressExposure_spec x hv hreps n pod hpod hname true ri hi
+  have hpod := hp n pod hw
+  obtain ⟨ns, hns, _⟩ := xgressExposure_spec x hv hreps n pod hpod true ri hi
   refine ⟨pod, ns, hw, hns, ?_, ?_⟩
   · cases ri with
     | none => intro en hen; cases hen
     | some r =>
       obtain ⟨b, l⟩ := r
-      obtain ⟨ns', hns', hall⟩ := exposure_entries_realizable x ha hb hv hreps n pod hpod hname true
+      obtain ⟨ns', hns', hall⟩ := exposure_entries_realizable x ha hb hv hreps n pod hpod true
         b l hi
       rw [hns] at hns'
       cases hns'
@@ -327,7 +327,7 @@ theorem exposed_peers_realizable (x : XEngine) (ha : x.eng.anps = []) (hb : x.en
     | none => intro en hen; cases hen
     | some r =>
       obtain ⟨b, l⟩ := r
-      obtain ⟨ns', hns', hall⟩ := exposure_entries_realizable x ha hb hv hreps n pod hpod hname false
+      obtain ⟨ns', hns', hall⟩ := exposure_entries_realizable x ha hb hv hreps n pod hpod false
         b l hg
       rw [hns] at hns'
       cases hns'
@@ -446,8 +446,7 @@ example : NamesNonEmpty ex.eng := by decide
 example : ∀ krp ∈ ex.reps, RepWF krp.2 := by decide
 example : RepNamespaces ex := by decide
 example : ∀ p ∈ peers, p.Real := by decide
-example : (web.isRepresentative = false ∧ web.ValidPorts) ∧ web.name ≠ representativePodName := by
-  decide
+example : web.isRepresentative = false ∧ web.ValidPorts := by decide
 example : ex.eng.findNs web.ns = some nsDefault := by decide
 /-- validity is not trivially true -/
 example : ¬ NpValid { ex.eng with netpols := [{ np with ingress := [⟨[.sel none none], []⟩] }] } := by
@@ -523,22 +522,47 @@ example : engDev'.peerConns (.pod web (some nsDefault)) (.ip [⟨167772160, 1845
     Exposure.peerConns engDev' (.pod web (some nsDefault)) (.ip [⟨167772160, 184549375⟩]) =
       .ok (ConnSet.mk' true) := by decide
 
-/-! Finding (why the theorems ask for `pod.name ≠ representativePodName`): `isPodToItself` compares
-pod name and namespace only, and every representative pod is named `representative-pod`. A real Pod
-with that name, in the namespace of a policy whose rule has no namespaceSelector, is "the same pod"
-as the representative peer of that rule: the pair evaluates to "All Connections", which is then
-reported as the exposure entry — here for a policy that allows TCP 80 only. -/
+/-! A real Pod named `representative-pod` (formerly a finding: `isPodToItself` compared pod name and
+namespace only, so that this pod was "the same pod" as the representative peer of a rule without
+namespaceSelector, and its exposure entry reported "All Connections"). `isPodToItself` now also
+compares the `fake` flags: the pair is evaluated like any other, and the entry holds what the policy
+allows — TCP 80, not TCP 81. The theorems no longer ask for `pod.name ≠ representativePodName`. -/
 def rpod : Pod :=
   { ns := "default", name := "representative-pod", labels := [("app", "web")], ports := [] }
+def ruleR : NPRule := ⟨[.sel (some selClient) none], [⟨none, .num 80 none⟩]⟩
 def npR : NetPol :=
   { ns := "default", name := "r", podSel := ⟨[("app", "web")], []⟩, types := [.ingress],
-    ingress := [⟨[.sel (some selClient) none], [⟨none, .num 80 none⟩]⟩], egress := [] }
+    ingress := [ruleR], egress := [] }
 def engR : Engine := { namespaces := [nsDefault], pods := [rpod], netpols := [npR], exposure := true }
-example : Exposure.peerConns engR (.pod repClient (some nsDefault)) (.pod rpod (some nsDefault)) =
-      .ok (ConnSet.mk' true) ∧
-    Spec.npAllows engR.toView rpod (.pod ⟨"default", "c", [("app", "client")], [], "", "", "",
-      "127.0.0.1", false, none, none⟩ nsDefault.labels) (.pod rpod nsDefault.labels) .ingress .TCP 81
-      = false := by decide
+
+example : isPodToItself (.pod repClient (some nsDefault)) (.pod rpod (some nsDefault)) = false := by
+  decide
+
+example : ∃ c, Exposure.peerConns engR (.pod repClient (some nsDefault)) (.pod rpod (some nsDefault))
+    = .ok c ∧ c.den .TCP 80 ∧ ¬ c.den .TCP 81 := by
+  obtain ⟨c, hc, hs⟩ := peerConns_repr engR (by decide) true repClient (some nsDefault) (by decide)
+    rpod (some nsDefault) (by decide) (by decide)
+    (isPodToItself_x true _ _ _ _ (by decide) (by decide))
+  refine ⟨c, hc, ?_, ?_⟩
+  · refine (hs.den _ _).mpr ⟨npR, ruleR, ⟨by decide, by decide, by decide⟩, ?_, ?_⟩
+    · unfold repSel
+      rw [Bool.or_eq_true, List.any_eq_true]
+      refine Or.inr ⟨_, List.mem_singleton.mpr rfl, ?_⟩
+      unfold repPeerMatch
+      rw [Bool.and_eq_true]
+      exact ⟨selectorsFullMatch_self _, selectorsFullMatch_self _⟩
+    · simp only [RD, if_true]
+      exact ⟨by decide, by decide⟩
+  · intro h
+    obtain ⟨p, r, ⟨hp, _, hr⟩, _, hrd⟩ := (hs.den _ _).mp h
+    have e1 : p = npR := by simpa [engR] using hp
+    subst e1
+    have e2 : r = ruleR := by simpa [Spec.npRules, npR] using hr
+    subst e2
+    simp only [RD, if_true] at hrd
+    revert hrd
+    unfold NetPol.portsDen
+    decide
 
 /-! 2. the flags -/
 example : isProtected ex.eng web true = true ∧ isProtected ex.eng web false = true ∧
@@ -597,11 +621,11 @@ example : ∃ res, xgressExposure ex wWeb false = .ok res ∧ ∀ prot entries,
       Spec.allowedDir ex.eng.toView (.pod web nsDefault.labels) (.pod qDb nslProd) (.pod qDb nslProd)
         .egress .TCP 6432 = true := by
   obtain ⟨res, hres⟩ := xgressExposure_ok ex (by decide) (by decide) (by decide) "default/web[Pod]" web
-    (by decide) (by decide) nsDefault (by decide) false
+    (by decide) nsDefault (by decide) false
   refine ⟨res, hres, ?_⟩
   rintro prot entries rfl en hen hP hN hpg
   obtain ⟨ns, hns, hall⟩ := exposure_entries_realizable ex rfl rfl (by decide) (by decide)
-    "default/web[Pod]" web (by decide) (by decide) false prot entries hres
+    "default/web[Pod]" web (by decide) false prot entries hres
   have : ns = nsDefault := by
     have h : ex.eng.findNs web.ns = some nsDefault := by decide
     rw [h] at hns
